@@ -943,6 +943,31 @@ func c20Grammar(name, code string, build func(s *z.StringSchema[string], not boo
 	}
 }
 
+// URLs assembled from parts: scheme × separator × userinfo × host × port × path × query × fragment, every
+// combination (also the ones in which a part follows the host directly: "h.co#f", "h.co?q=1", "h.co:80#/f").
+var c20URLParts = c20Grammar("URL", "url", func(s *z.StringSchema[string], not bool) *z.StringSchema[string] {
+	if not {
+		return s.Not().URL()
+	}
+	return s.URL()
+}, refURL, func(x *mc.X) string {
+	pick := func(label string, opts ...string) string { return opts[x.Choose(len(opts), label)] }
+	return pick("scheme", "http", "h", "", "1h") + pick("sep", "://", ":", ":/", "") + pick("userinfo", "", "u@", "u:p@") +
+		pick("host", "h.co", "", "[::1]", "h h") + pick("port", "", ":80", ":x") + pick("path", "", "/", "/p") +
+		pick("query", "", "?", "?q=1") + pick("fragment", "", "#", "#f", "#/f")
+})
+
+// reKey runs a scenario of another property's family and files its violations under prop.
+func reKey(prop, from string, run mc.Scenario) mc.Scenario {
+	return func(x *mc.X) *mc.Outcome {
+		out := run(x)
+		for _, v := range out.Viol {
+			v.Key = prop + ":builtin:" + strings.TrimPrefix(v.Key, from+":")
+		}
+		return out
+	}
+}
+
 const c20BaseUUID = "01234567-89ab-cdef-ABCD-EF0123456789"
 
 func c20UUIDGen(pairs bool) func(x *mc.X) string {
@@ -1008,6 +1033,7 @@ func init() {
 					items = append(items, Item{Name: "str/Not." + t.name, Run: c20StringItem(t, true, c20Alphabet, maxLen), MaxDevs: -1})
 				}
 			}
+			items = append(items, Item{Name: "named-types", MaxDevs: -1, Run: c20NamedScenario})
 			for _, t := range c20StringTests() {
 				items = append(items, Item{Name: "siblings/" + t.name, Run: c20SiblingItem(t, false, c20Alphabet), MaxDevs: -1})
 				if !t.noNot {
@@ -1059,6 +1085,7 @@ func init() {
 				}
 				return s.URL()
 			}, refURL, func(x *mc.X) string { return chooseString(x, urlAlpha, gLen, "sym") })})
+			items = append(items, Item{Name: "grammar/URLParts", MaxDevs: -1, Run: c20URLParts})
 			items = append(items, Item{Name: "grammar/UUID", MaxDevs: -1, Run: c20Grammar("UUID", "uuid", func(s *z.StringSchema[string], not bool) *z.StringSchema[string] {
 				if not {
 					return s.Not().UUID()
